@@ -5,47 +5,47 @@ import json, subprocess
 
 CLAIMED = {
  "C01": dict(cat="exploration", technique="reference-model monitor over generated executions (library API + CLI)",
-   text="Runs the real engine (patch.Parse/Apply in worker subprocesses, and the freshly built CLI) on thousands of generated (pattern, file) pairs with planted instances and token-level near-misses, and judges every output with an independent executable reference semantics (canonical go/ast trees, backtracking unifier, acceptable-output sets). Exploration is the right level: the quantifier is unbounded, what can be shown is that the property held on the K distinct pattern/site configurations that were executed.",
-   note="Trusted: go/parser, go/printer, the reference model in harness/ref (triaged against the docs; disagreements logged in DESIGN.md section 8). Nested and later instances are don't-care. Patterns stay inside the generated fragment (no top-level func literals, no [...]T, no variadic spread of non-identifiers).",
+   text="Runs the real engine (patch.Parse/Apply in worker subprocesses, and the freshly built CLI) on thousands of (pattern, file) pairs with planted instances and token-level near-misses: random expression patterns, the schema library, patterns abstracted from generated code fragments (every node kind the file generator produces, on the matcher and the replacer side), patterns abstracted from fragments of standard-library files and applied to those files, and variants whose patch also adds an import; and judges every output with an independent executable reference semantics (canonical go/ast trees, backtracking unifier, acceptable-output sets). Exploration is the right level: the quantifier is unbounded, what can be shown is that the property held on the K distinct pattern/site configurations that were executed.",
+   note="Trusted: go/parser, go/printer, the reference model in harness/ref (triaged against the docs; disagreements logged in DESIGN.md section 8). Nested and later instances are don't-care. Patterns stay inside the generated fragment (no top-level func literals, no [...]T, no variadic spread of non-identifiers, no leading '{'). A rewrite the reference expects but go/printer cannot print as valid Go (checked by printing the expected tree) is inconclusive when the engine reports an error, as C07 demands.",
    ref="5/C01"),
  "C02": dict(cat="exploration", technique="reference-model monitor + reference-free metamorphic relation (binding leak) over generated executions",
-   text="19 templates with repeated / kind-constrained metavariables are instantiated with per-occurrence fillers in controlled relations (equal, equal modulo comments, one leaf different, parenthesised copy, deeper copy, non-identifier for an identifier metavariable, absent label) and run through the real engine; outputs are judged by the reference model. A second, reference-free monitor checks that a failing partial match placed before a site changes neither the site's rewrite nor itself.",
+   text="19 templates with repeated / kind-constrained metavariables are instantiated with per-occurrence fillers in controlled relations (equal, equal modulo comments, one leaf different, parenthesised copy, deeper copy, non-identifier for an identifier metavariable, absent label) and run through the real engine; outputs are judged by the reference model. A second, reference-free monitor checks that a failing partial match placed before a site changes neither the site's rewrite nor itself. A kind census binds an expression (and an identifier) metavariable, in six pattern positions, to at least one filler of every go/ast expression node type (value and type expressions, incl. multi-argument generic instantiations).",
    note="Trusted: go/parser, go/printer, reference model. 'Syntactically identical' = equal canonical trees with parentheses significant.", ref="5/C02"),
  "C03": dict(cat="exploration", technique="reference-model monitor: instantiate('+', bindings of that site) vs re-parsed engine output",
-   text="'+' sides that use each metavariable 0-3 times, reordered, under higher-precedence operators and inside elided lists are applied to files with 1-8 differently bound sites; plus misfit streams (identifier->selector in name-only slots, call->non-call under go/defer: 'unchanged' required) and an aliasing stream (a later change rewrites one of two copies). Every output is compared with the reference instantiation site by site.",
+   text="'+' sides that use each metavariable 0-3 times, reordered, under higher-precedence operators and inside elided lists are applied to files with 1-8 differently bound sites; plus misfit streams (identifier->selector in name-only slots, call->non-call under go/defer: 'unchanged' required) an aliasing stream (a later change rewrites one of two copies) and a generated-siblings stream (a later change rewrites several operands an earlier change generated at one collapsed position, each with its own binding). Every output is compared with the reference instantiation site by site.",
    note="Trusted: go/parser, go/printer, reference model; slot admissibility = go/ast slot typing. Replacements that expose a composite literal in an if/for/switch header are judged by C07, not here (counted as inconclusive).", ref="5/C03"),
  "C04": dict(cat="exploration", technique="exhaustive small-scope table judged by a backtracking reference list matcher",
-   text="For 11 list kinds, every pattern word over {a, b, x, y, ...} of length<=4 with 1-3 elisions is run against every list over {a,b,c} of length 0-5 (exhaustive in that sub-space, 1.4M pairs) plus random longer lists and 'for ... {' against all loop-header shapes; the real engine's output for each batch is compared with the reference (match iff some choice of runs works; runs reproduced complete, in order, leftmost-shortest).",
+   text="For 12 list kinds, every pattern word over {a, b, x, y, ...} of length<=4 with 1-3 elisions, every word of length 5-6 with 2-3 elisions in which a metavariable occurs twice (the tail's match depends on the earlier binding) and words with long explicit sections are run against every list over {a,b,c} of length 0-5 (and {a,b} up to 8) - exhaustive in that sub-space in the thorough tier - plus random longer lists, 'for ... {' against all loop-header shapes (plain and labelled loops) and the schema library's elision patterns (context-line elisions reused on '+' lines) on generated files; the real engine's output for each batch is compared with the reference (match iff some choice of runs works; runs reproduced complete, in order, leftmost-shortest).",
    note="Exhaustive only inside the enumerated bounds; elements are atoms; elision layouts are the two pairing situations the statement defines (context-line elisions, or one elision per side).", ref="5/C04"),
  "C05": dict(cat="exploration", technique="reference-located sites + per-declaration canonical equality on real-world and generated surroundings",
-   text="27 patterns that occur in real code are applied to a seed-determined sample of the Go standard library (~6800 files present offline) and random patterns to generated files of 20-60 declarations; for every run the monitor checks package clause, import set, number and order of declarations, canonical identity of every declaration in which the reference finds no instance, and the reference expectation for declarations with sites. Library API and in-place CLI.",
+   text="27 patterns that occur in real code, and patterns abstracted from a fragment of the file itself, are applied to a seed-determined sample of the Go standard library (~6800 files present offline), and random patterns to generated files of 20-60 declarations; a fifth of the patches also add an import (a file without imports gets a new first declaration); for every run the monitor checks package clause, import set, number and order of declarations, canonical identity of every declaration in which the reference finds no instance, and the reference expectation for declarations with sites. Library API and in-place CLI.",
    note="Trusted: go/parser; canonical trees ignore layout/comments/redundant parentheses; engine errors are left to C03/C07 (inconclusive here).", ref="5/C05"),
  "C17": dict(cat="exploration", technique="comment-attribution monitor (per-declaration comment lists + global multiset) over generated and real files",
    text="Comment-dense generated files and standard-library files are rewritten by 12 patches (elided statement patterns, signature-changing declaration patterns, multi-change patches) through API and CLI; comments are attributed to top-level declarations by source interval on both sides and compared for every declaration whose syntax is canonically unchanged; header comments and global multiset inclusion are checked for every run.",
    note="Import declarations only take part in the multiset check; a detached comment must survive only when both neighbouring declarations are untouched (the statement speaks of doc, interior and trailing comments).", ref="5/C17"),
  "C09": dict(cat="exploration", technique="metamorphic monitor: combined run vs chain of single-change in-place CLI runs; all deliveries (-p, -P, stdin, API) byte-equal",
-   text="Sequences of 2-5 changes (chains where change k+1 only matches code produced by k, killers, independent, no-op and failing members) are run once combined and once as a chain of separate in-place runs on scratch copies; canonical trees must agree, a failing step must make the combined run fail and leave the file byte-identical, and the five CLI deliveries plus the library API must agree byte for byte.",
+   text="Sequences of 2-5 changes (chains where change k+1 only matches code produced by k, sub-pattern members that rewrite several wrappers the previous change generated, members that spell a list an elision may have left empty as a literal empty list, killers, independent, no-op and failing members) are run once combined and once as a chain of separate in-place runs on scratch copies; canonical trees must agree, a failing step must make the combined run fail and leave the file byte-identical, and the five CLI deliveries plus the library API must agree byte for byte.",
    note="Stated bounds (DESIGN 5/C09): no explicit parentheses in patterns/sources, metavariables only in argument slots, no imports; inside them equality is demanded exactly. No reference model involved.", ref="5/C09"),
  "C13": dict(cat="exploration", technique="metamorphic monitor over layout variants of one patch (API outputs as canonical trees; CLI stderr descriptions)",
    text="Each base patch (random patterns, schema library, the repository's testdata patches with their inputs) is re-laid out by 10 compositions of the transformations the statement lists; every variant must be accepted iff the base is and give canonically the same output on every file; '#' lines directly above the header, and only those, must be printed as the description.",
    note="Only transformations named in the property statement are generated; description text compared modulo leading '#'/blanks.", ref="5/C13"),
- "C10": dict(cat="exploration", technique="exhaustive guard table (6300 cells) run through the real engine, judged by the statement's table",
-   text="The full cross product of patch-side import forms, file-side forms (incl. a path imported twice, dot and blank imports), a second guard import, import block shapes, package clause variants (incl. renames) and guard-line prefixes is enumerated; each cell is a file in which the code pattern occurs, and the monitor checks 'applied iff every guard holds'. Library API for all cells, CLI for every 8th batch.",
-   note="Exhaustive for the enumerated dimensions only (one code pattern, one path per guard); 'stated form' for a path imported twice: any spec may satisfy the guard.", ref="5/C10"),
+ "C10": dict(cat="exploration", technique="exhaustive guard table (63360 cells) run through the real engine, judged by the statement's table",
+   text="The full cross product of patch-side import forms, file-side forms (incl. a path imported twice, dot and blank imports), a second guard import, import block shapes, package clause variants (incl. renames), guard-line prefixes, kind of the code pattern behind the guards (expression, expression replaced by several statements, statement, declaration) and package of the file (pk / pk_test) is enumerated; each cell is a file in which the code pattern occurs, and the monitor checks 'applied iff every guard holds' and, when applied, that the package clause is the file's own (or the renamed one). Library API for all cells, CLI for every 8th batch.",
+   note="Exhaustive for the enumerated dimensions only (four code patterns, one path per guard); 'stated form' for a path imported twice: any spec may satisfy the guard.", ref="5/C10"),
  "C11": dict(cat="exploration", technique="import-set effect monitor over generated import blocks (input vs output (name,path) sets and remaining selector uses)",
-   text="11 import-manipulating patches are applied to files whose import blocks contain the affected import in every form plus 0-8 unrelated imports in every block shape, with and without remaining uses; the monitor compares input and output import sets: unmentioned imports unchanged, nothing added, '+' imports present under the right name, '-' imports gone iff unreferenced or taken over, referenced matched imports kept.",
+   text="11 import-manipulating patches (each also over import paths whose last element looks like a version, .../core/v1) are applied to files whose import blocks contain the affected import in every form plus 0-8 unrelated imports in every block shape, with and without remaining uses; the monitor compares input and output import sets: unmentioned imports unchanged, nothing added, '+' imports present under the right name, '-' imports gone iff unreferenced or taken over, referenced matched imports kept.",
    note="Package name of an import = explicit name, else last path element (files are generated so that they coincide). Context-line imports that become unreferenced are don't-care.", ref="5/C11"),
  "C06": dict(cat="exploration", technique="filesystem-digest + stdout/stderr/exit oracle + strace syscall monitor over runs with files that cannot match",
-   text="CLI runs over 3-8 files where some or all files cannot match (anchor identifier absent, failing package/import guard with the code pattern present, near-misses), in 8 non-canonical layouts plus standard-library files, in all output modes and flag combinations; monitors: per-file digest (bytes, inode, mtime, ctime, mode) before/after, no stdout/stderr/diff/description for the file, --print-only echoes the original bytes, exit 0, Apply(src)==src, and (every 8th run) a strace event log with no write-class syscall on an unmatched file.",
+   text="CLI runs over 3-8 files where some or all files cannot match (anchor identifier absent, failing package/import guard with the code pattern present, near-misses), in 12 layouts (incl. CRLF, no final newline, byte order mark, a line > 64 KiB, //line directive) plus standard-library files, in all output modes and flag combinations; monitors: per-file digest (bytes, inode, mtime, ctime, mode) before/after, no stdout/stderr/diff/description for the file, --print-only echoes the original bytes, exit 0, Apply(src)==src, and (every 8th run) a strace event log with no write-class syscall on an unmatched file.",
    note="'Cannot match' is established syntactically without the reference model. -v log lines are allowed on stdout.", ref="5/C06"),
  "C12": dict(cat="exploration", technique="strace syscall monitor + tree digest for dry runs; byte agreement of in-place / --print-only / applied --diff / library outputs",
-   text="The same (patch, files, flags) inputs are run in place, with --print-only and with --diff on separate scratch copies (dry runs under strace -f every 4th case) and through the library: the classified syscall log of a dry run must contain no mutating call anywhere, the tree digest must be unchanged, and the four outputs must agree byte for byte (diffs applied by a strict unified-diff applier); descriptions only on stderr and only for rewritten files.",
+   text="The same (patch, files, flags) inputs are run in place, with --print-only, with --diff and with both dry-run flags together on separate scratch copies (dry runs under strace -f every 4th case) and through the library: the classified syscall log of a dry run must contain no mutating call anywhere, the tree digest must be unchanged, and the four outputs must agree byte for byte (diffs applied by a strict unified-diff applier); descriptions only on stderr and only for rewritten files.",
    note="Three known findings in --diff mode (CRLF input, missing final newline, line > 64 KiB), root cause in github.com/pkg/diff: listed in known_findings.json by class signature.", ref="5/C12"),
  "C15": dict(cat="exploration", technique="three independent observations (rewrite count in file bytes, -v log order, strace open/write event log) vs a transcription of the statement",
    text="Random directory trees with excluded directory names at any depth, look-alike names, symlinks, non-Go files, and argument lists with overlaps/duplicates/absolute/'...' forms; every .go file carries one site of a non-idempotent patch so the number of times it was processed is readable from its bytes; the -v log gives the processed set and order; every 5th run a strace log gives exactly-once read/modify per model file and sorted order.",
    note="cwd never has an excluded name; symlinks named explicitly are not processed (the statement: 'no symlinks').", ref="5/C15"),
  "C16": dict(cat="fault_enumeration", technique="fault injection at the process boundary (RLIMIT_FSIZE sweep, strace syscall error and SIGKILL injection, input-borne failures) + post-run file classifier and stderr/exit oracle",
-   text="Every fault point of the enumeration (write cut after k bytes for a sweep of k; each write-path syscall failing with EIO/ENOSPC/EACCES/EDQUOT at its n-th call; the process killed at those calls; per-file and per-patch input failures at every position of a multi-file run) is executed against the real CLI on scratch copies; afterwards every *.go file must hold its original or its complete patched bytes (baseline from a fault-free run), exit status and stderr must report path and cause, and other files' results must be unaffected.",
+   text="Every fault point of the enumeration (write cut after k bytes for a sweep of k; each write-path syscall failing with EIO/ENOSPC/EACCES/EDQUOT at its n-th call; the process killed at those calls; per-file and per-patch input failures at every position of a multi-file run, incl. a missing path before good ones and two missing paths; double faults: no temporary file can be created (over-long target name, or the n-th openat fails) while writes are cut short) is executed against the real CLI on scratch copies; afterwards every *.go file must hold its original or its complete patched bytes (baseline from a fault-free run), exit status and stderr must report path and cause, and other files' results must be unaffected.",
    note="Whether a fault fired is read from the strace log (INJECTED marker / kill); GOMAXPROCS=1 so that strace's per-thread counter is meaningful. A fault that hits gopatch's own write to stderr makes the diagnostic unobservable and is only classified for file integrity.", ref="5/C16"),
  "C18": dict(cat="exploration", technique="exhaustive header table (4800 cells, flag off and on) through the CLI with digest/stdout/stderr monitors, judged by a three-valued reference predicate",
    text="Every combination of marker spelling (well-formed and 15 near-misses), comment form, position (package doc, detached, after the package clause, in a function, end of file), companions (licence header, build tag), output mode and match/no-match is run with and without --skip-generated; must-skip cells must be completely untouched and silent, must-process cells byte-identical to the flag-off run, flag-off runs unaffected by the marker.",
@@ -60,7 +60,7 @@ CLAIMED = {
    text="Every patch of testdata/, examples/ and the harness' schema libraries is mutated (truncation, token insertion/replacement, span/line deletion, duplication, swaps, prefix flips, random bytes), complemented by grammar-generated ill-typed patches and random strings; accepted patches are applied to 12 construct-covering targets. Panics, fatal errors, exit statuses other than 0/1, CPU exhaustion (decided on CPU time, confirmed alone under RLIMIT_CPU) and memory blow-up are violations, de-duplicated by top in-repo frame.",
    note="Hangs are decided on consumed CPU time, never wall-clock; a wall-clock watchdog only makes a run inconclusive (exit 2).", ref="5/C08"),
  "C14": dict(cat="exploration", technique="Go race detector (harness + CLI built -race) + per-operation comparison with the stateless solo model + reflect immutability fingerprint of the parsed patch",
-   text="One parsed patch is shared by 2-24 goroutines released from a barrier, each making 4-13 Apply calls over a shuffled mix of files (with sites, without, unparseable, generated) at GOMAXPROCS 1/4/16, followed by sequential permutations; the CLI (-race) processes the same file set solo, grouped, in shuffled orders, with duplicates and via the directory. Violations: any race-detector report, any result different from the solo result F(file), any change of the deep fingerprint of *patch.File.",
+   text="One parsed patch is shared by 2-24 goroutines released from a barrier, each making 4-13 Apply calls over a shuffled mix of files (with sites, without, unparseable, generated) at GOMAXPROCS 1/4/16, followed by sequential permutations; the CLI (-race) processes the same file set solo, grouped, in shuffled orders, with duplicates, under relative and absolute spellings of the same file, via the directory, and next to a file whose rewrite is rejected. Violations: any race-detector report, any result different from the solo result F(file), any change of the deep fingerprint of *patch.File.",
    note="The sequential model is stateless (Apply is specified to be pure), so linearizability reduces to a per-operation check and no history checker is needed. Overlap is measured (overlapping call pairs reported in the evidence), never used for a verdict.", ref="5/C14"),
 #NEXT
 }
